@@ -9,6 +9,7 @@
 #include <nix/Dimensions.hpp>
 
 #include <cmath>
+#include <limits>
 #include <nix/DataArray.hpp>
 #include <nix/util/util.hpp>
 #include <nix/Exception.hpp>
@@ -196,36 +197,57 @@ void SampledDimension::samplingInterval(double interval) {
 }
 
 
-boost::optional<ndsize_t> getSampledIndex(const double position, const double offset, const double sampling_interval, const PositionMatch match) {
+// Largest k (as double, may be -1) with axis(k) <= position, where axis(k) is the
+// coordinate of sample k computed exactly as positionAt() does. The quotient is
+// only an estimate, rounding is corrected by comparing against the axis itself.
+template<typename AxisFn>
+static double lastIndexNotAfter(double position, double estimate, AxisFn axis) {
+    double k = std::floor(estimate);
+    if (k < -1.0) {
+        k = -1.0;
+    }
+    for (int i = 0; i < 4 && axis(k + 1.0) <= position; ++i) {
+        k += 1.0;
+    }
+    for (int i = 0; i < 4 && k >= 0.0 && axis(k) > position; ++i) {
+        k -= 1.0;
+    }
+    return k;
+}
+
+
+template<typename AxisFn>
+static boost::optional<ndsize_t> matchIndex(double position, double estimate, const PositionMatch match, AxisFn axis) {
     boost::optional<ndsize_t> index;
-    if (position < offset && (match != PositionMatch::Greater && match != PositionMatch::GreaterOrEqual)) {
+    // 2^64 is the first value not representable as ndsize_t
+    const double index_limit = 18446744073709551616.0;
+    if (std::isnan(position) || std::isnan(estimate)) {
         return index;
     }
-    double tmp;
-    if (match == PositionMatch::Greater || match == PositionMatch::GreaterOrEqual) {
-        tmp = ceil((position - offset) / sampling_interval);
-        if (tmp < 0.0) {
-            tmp = 0.0;
-        }
-        bool equals = fabs(tmp * sampling_interval + offset - position) <= numeric_limits<double>::epsilon();
-        index = (match == PositionMatch::Greater && equals) ? static_cast<ndsize_t>(tmp + 1) : static_cast<ndsize_t>(tmp);
-    } else if (match == PositionMatch::Less || match == PositionMatch::LessOrEqual) {
-        tmp = floor((position - offset) / sampling_interval);
-        bool equals = fabs(tmp * sampling_interval + offset - position) <= numeric_limits<double>::epsilon();
-        if (match == PositionMatch::Less && equals) { 
-            if (tmp >= 1) {
-                index = static_cast<ndsize_t>(tmp - 1);
-            } 
-        } else {
-            index = static_cast<ndsize_t>(tmp);
-        }
-    } else {
-        tmp = round((position - offset) / sampling_interval);
-        if (fabs(tmp * sampling_interval + offset - position) <= numeric_limits<double>::epsilon()) {
-            index = static_cast<ndsize_t>(tmp);
-        }
+    if (estimate >= index_limit) {
+        // beyond any addressable sample
+        return index;
+    }
+    double k = lastIndexNotAfter(position, estimate, axis);
+    bool equals = k >= 0.0 && axis(k) == position;
+    double res = -1.0;
+    switch (match) {
+    case PositionMatch::LessOrEqual:    res = k; break;
+    case PositionMatch::Less:           res = equals ? k - 1.0 : k; break;
+    case PositionMatch::GreaterOrEqual: res = equals ? k : k + 1.0; break;
+    case PositionMatch::Greater:        res = k + 1.0; break;
+    case PositionMatch::Equal:          res = equals ? k : -1.0; break;
+    }
+    if (res >= 0.0 && res < index_limit) {
+        index = static_cast<ndsize_t>(res);
     }
     return index;
+}
+
+
+boost::optional<ndsize_t> getSampledIndex(const double position, const double offset, const double sampling_interval, const PositionMatch match) {
+    auto axis = [offset, sampling_interval](double k) { return k * sampling_interval + offset; };
+    return matchIndex(position, (position - offset) / sampling_interval, match, axis);
 }
 
 
@@ -392,49 +414,27 @@ void SetDimension::label(const std::string &label) {
 }
 
 
-boost::optional<ndsize_t> getSetIndex(const double position, std::vector<std::string> labels, const PositionMatch match) {
+static boost::optional<ndsize_t> getCountedIndex(const double position, const ndsize_t count, const PositionMatch match) {
+    auto axis = [](double k) { return k; };
     boost::optional<ndsize_t> index;
-    if (position < 0 && (match != PositionMatch::Greater && match != PositionMatch::GreaterOrEqual)) {
+    if (count > 0 && position > static_cast<double>(count - 1)) {
+        // beyond the last label or row, however far
+        if (match == PositionMatch::Less || match == PositionMatch::LessOrEqual) {
+            index = count - 1;
+        }
         return index;
     }
-    double tmp;
-
-    if (match == PositionMatch::Greater || match == PositionMatch::GreaterOrEqual) {
-        tmp = ceil(position);
-        if (tmp < 0.0) {
-            tmp = 0.0;
-        }
-        
-
-        bool equals = fabs(tmp - position) <= numeric_limits<double>::epsilon();
-        index = (match == PositionMatch::Greater && equals) ? static_cast<ndsize_t>(tmp + 1) : static_cast<ndsize_t>(tmp);
-    } else if (match == PositionMatch::Less || match == PositionMatch::LessOrEqual) {
-        tmp = floor(position);
-        bool equals = fabs(tmp - position) <= numeric_limits<double>::epsilon();
-        if (match == PositionMatch::Less && equals) { 
-            if (tmp >= 1) {
-                index = static_cast<ndsize_t>(tmp - 1);
-            } 
-        } else {
-            index = static_cast<ndsize_t>(tmp);
-        }
-    } else {
-        tmp = round(position);
-        if (fabs(tmp - position) <= numeric_limits<double>::epsilon()) {
-            index = static_cast<ndsize_t>(tmp);
-        }
+    index = matchIndex(position, position, match, axis);
+    if (index && count > 0 && *index > count - 1) {
+        // only Greater and GreaterOrEqual can get here
+        index = boost::none;
     }
-
-    ndsize_t label_count = labels.size();
-    if (index && label_count > 0 && *index > label_count - 1) {
-        if (match == PositionMatch::Less || match == PositionMatch::LessOrEqual) {
-            index = label_count - 1;
-        } else {
-            index = boost::none;
-        }
-    }
-
     return index;
+}
+
+
+boost::optional<ndsize_t> getSetIndex(const double position, std::vector<std::string> labels, const PositionMatch match) {
+    return getCountedIndex(position, labels.size(), match);
 }
 
 
@@ -790,46 +790,7 @@ DataFrameDimension::DataFrameDimension(const DataFrameDimension &other)
 
 
 boost::optional<ndsize_t> getDataFrameIndex(const double position, const ndsize_t tick_count, const PositionMatch match) {
-    boost::optional<ndsize_t> index;
-    if (position < 0 && (match != PositionMatch::Greater && match != PositionMatch::GreaterOrEqual)) {
-        return index;
-    }
-    double tmp;
-
-    if (match == PositionMatch::Greater || match == PositionMatch::GreaterOrEqual) {
-        tmp = ceil(position);
-        if (tmp < 0.0) {
-            tmp = 0.0;
-        }
-
-        bool equals = fabs(tmp - position) <= numeric_limits<double>::epsilon();
-        index = (match == PositionMatch::Greater && equals) ? static_cast<ndsize_t>(tmp + 1) : static_cast<ndsize_t>(tmp);
-    } else if (match == PositionMatch::Less || match == PositionMatch::LessOrEqual) {
-        tmp = floor(position);
-        bool equals = fabs(tmp - position) <= numeric_limits<double>::epsilon();
-        if (match == PositionMatch::Less && equals) { 
-            if (tmp >= 1) {
-                index = static_cast<ndsize_t>(tmp - 1);
-            } 
-        } else {
-            index = static_cast<ndsize_t>(tmp);
-        }
-    } else {
-        tmp = round(position);
-        if (fabs(tmp - position) <= numeric_limits<double>::epsilon()) {
-            index = static_cast<ndsize_t>(tmp);
-        }
-    }
-
-    if (index && tick_count > 0 && *index > tick_count - 1) {
-        if (match == PositionMatch::Less || match == PositionMatch::LessOrEqual) {
-            index = tick_count - 1;
-        } else {
-            index = boost::none;
-        }
-    }
-   
-    return index;
+    return getCountedIndex(position, tick_count, match);
 }
 
 
